@@ -165,3 +165,131 @@ def newton_variant_unit(variant):
 
 for _v in ("Simplified", "Full", "ActiveSet"):
     newton_variant_unit(_v)
+
+
+@unit("C14.Extended.assembly", ["C14"], [SOL + "extended_step_solver.ExtendedStepSolver._compute_deriv", SOL + "extended_step_solver.ExtendedStepSolver.extract_rows"], config={"max_paths": 20})
+def extended_assembly(u):
+    """The system assembled by the extended step solver is, entry by entry, the system of the abstract solve_scaled
+    contract: rows for the active components are unit rows, rows for the inactive components are the rows of
+    [H0 + lamb I | J^T], the last m rows are [J | -lamb/(1+lamb rho) I]."""
+    params = mk_params(u)
+    problem = mk_problem(u)
+    n, m = problem.fields["__n__"], problem.fields["num_cons"]
+    orig = mk_iterate(u, problem, params, "orig", in_box=True)
+    dt, rho = u.real("dt"), u.real("rho")
+    u.assume(dt > 0)
+    u.assume(rho > 0)
+    u.it.abstract["pygradflow.implicit_func.ScaledImplicitFunc.__init__"] = lambda it, s, p, i, d: None
+    ss = u.construct(SOL + "extended_step_solver.ExtendedStepSolver", problem, params, orig, dt, rho)
+    act = u.vec("active_set", n, kind="bool")
+    ss.fields["_active_set"] = act
+    J, H = Mat(m, n, None, name="J"), Mat(n, n, None, name="H0")
+    ss.fields["_jac"], ss.fields["_hess"] = J, H
+    u.method(ss, "_compute_deriv")
+    D = ss.fields["_deriv"]
+    e = matmodel.entry_fn(u.it, D)
+    eJ, eH = matmodel.entry_fn(u.it, J), matmodel.entry_fn(u.it, H)
+    counts = list(u.path.ghost.get("__where_counts__", {}).values())
+    u.ensure(len(counts) == 2, "active_and_inactive_index_sets_computed")
+    a = counts[0][1]
+    av = V(act)
+    lam = 1 / dt
+    i, j = u.int("i"), u.int("j")
+    u.assume(z3.And(i >= 0, j >= 0, i < n + m, j < n + m))
+    u.path.index_term(i, a)
+    u.path.index_term(i - a, counts[1][1])
+    # index maps of np.where (increasing enumerations of the active / inactive components)
+    idxA = [v for v in u.path.ghost["__where_counts__"].values()]
+    u.ensure((D.rows == n + m) if not isinstance(D.rows, int) else True, "system_is_(n+m)x(n+m)")
+    # rows of active components: unit rows; the row index i < a corresponds to the i-th active component
+    whereA = u.it.lib["numpy.where"]
+    kron = lambda p, q: z3.If(p == q, z3.RealVal(1), z3.RealVal(0))
+    blocks = D.blocks
+    tA = blocks[0][0]
+    colA = tA.coo[2].vec()
+    u.ensure(z3.Implies(i < a, z3.And(av.f(colA.f(i)), e(i, j) == z3.If(j < n, kron(j, colA.f(i)), 0))), "active_rows_are_unit_rows_e_act(i)")
+    fh = blocks[1][0]
+    inact = fh.gather[2]
+    r = inact.f(i - a)
+    u.ensure(z3.Implies(z3.And(i >= a, i < n), z3.And(z3.Not(av.f(r)), e(i, j) == z3.If(j < n, eH(r, j) + lam * kron(r, j), eJ(j - n, r)))), "inactive_rows_are_rows_of[H0+lamb*I|J^T]")
+    c = i - n
+    u.ensure(z3.Implies(i >= n, e(i, j) == z3.If(j < n, eJ(c, j), -(lam / (1 + lam * rho)) * kron(c, j - n))), "constraint_rows_are[J|-lamb/(1+lamb*rho)*I]")
+    u.cover("end")
+
+
+@unit("C14.Symmetric.assembly", ["C14"], [SOL + "symmetric_step_solver.SymmetricStepSolver._compute_deriv", SOL + "symmetric_step_solver.SymmetricStepSolver.compute_hess_jac", SOL + "symmetric_step_solver.SymmetricStepSolver.compute_rhs", SOL + "symmetric_step_solver.SymmetricStepSolver.solve_scaled"], config={"max_paths": 40})
+def symmetric_assembly(u):
+    """The reduced symmetric system: [ (H0+lamb I)[I,I]  J[:,I]^T ; J[:,I]  -lamb/(1+lamb rho) I ] over the inactive
+    components I, right-hand side (b1 - (H0+lamb I)[I,A] b0 , b2t - J[:,A] b0), and the solution is scattered back:
+    dx[I] = s[:|I|], dx[A] = b0, dy = s[|I|:]."""
+    params = mk_params(u)
+    problem = mk_problem(u)
+    n, m = problem.fields["__n__"], problem.fields["num_cons"]
+    orig = mk_iterate(u, problem, params, "orig", in_box=True)
+    dt, rho = u.real("dt"), u.real("rho")
+    u.assume(dt > 0)
+    u.assume(rho > 0)
+    u.it.abstract["pygradflow.implicit_func.ScaledImplicitFunc.__init__"] = lambda it, s, p, i, d: None
+    ss = u.construct(SOL + "symmetric_step_solver.SymmetricStepSolver", problem, params, orig, dt, rho)
+    act = u.vec("active_set", n, kind="bool")
+    av = V(act)
+    ss.fields["_active_set"] = act
+    J, H = Mat(m, n, None, name="J"), Mat(n, n, None, name="H0")
+    ss.fields["_jac"], ss.fields["_hess"] = J, H
+    ss.fields["hess_rows"] = None
+    eJ, eH = matmodel.entry_fn(u.it, J), matmodel.entry_fn(u.it, H)
+    lam = 1 / dt
+    kron = lambda p, q: z3.If(p == q, z3.RealVal(1), z3.RealVal(0))
+    sol_holder = {}
+
+    def solve_active(it, self_, active_set, rhs):
+        D = it.call(it.getattr(self_, "_compute_deriv"), [active_set], {})
+        sol_holder["D"], sol_holder["rhs"] = D, rhs
+        sol_holder["s"] = _fresh_vec(it, "s", rhs.n)
+        return sol_holder["s"]
+
+    u.it.abstract[SOL + "symmetric_step_solver.SymmetricStepSolver._solve_active_set"] = solve_active
+    from pyvc import npmodel as _np
+
+    (actidx,) = _np.np_where(u.it, act)  # the enumeration the code will obtain from np.where(self.active_set)
+    na = actidx.n
+    b0 = _fresh_vec(u.it, "b0", na)
+    b1 = _fresh_vec(u.it, "b1", n - na)
+    b2t = _fresh_vec(u.it, "b2t", m)
+    dx, dy, rcond = u.method(ss, "solve_scaled", b0, b1, b2t)
+    counts = list(u.path.ghost.get("__where_counts__", {}).values())
+    # np.where(active) is called first, np.where(not active) second (several times: the enumerations of one mask are
+    # the same function; only the first pair is used for the index maps below)
+    D = sol_holder["D"]
+    e = matmodel.entry_fn(u.it, D)
+    hr = ss.fields["hess_rows"]
+    inact = hr.gather[2] if getattr(hr, "gather", None) else None
+    u.ensure(inact is not None and hr.gather[0] == "rows", "hess_rows_are_the_inactive_rows_of_H0+lamb*I")
+    ni = inact.n
+    i, j = u.int("i"), u.int("j")
+    u.assume(z3.And(i >= 0, j >= 0, i < ni + m, j < ni + m))
+    u.path.index_term(i, ni)
+    u.path.index_term(j, ni)
+    # the column gathers of _compute_deriv use their own (identical) enumeration of the inactive set
+    blocks = D.blocks
+    ih = blocks[0][0]
+    ci = ih.gather[2]
+    ri, cj = inact.f(i), ci.f(j)
+    u.ensure(z3.Implies(z3.And(i < ni, j < ni), z3.And(z3.Not(av.f(ri)), z3.Not(av.f(cj)), e(i, j) == eH(ri, cj) + lam * kron(ri, cj))), "block11==(H0+lamb*I)[inactive,inactive]")
+    u.ensure(z3.Implies(z3.And(i < ni, j >= ni), e(i, j) == eJ(j - ni, ci.f(i))), "block12==J[:,inactive]^T")
+    u.ensure(z3.Implies(z3.And(i >= ni, j < ni), e(i, j) == eJ(i - ni, cj)), "block21==J[:,inactive]")
+    u.ensure(z3.Implies(z3.And(i >= ni, j >= ni), e(i, j) == -(lam / (1 + lam * rho)) * kron(i, j)), "block22==-lamb/(1+lamb*rho)*I")
+    # solution scattered back
+    s = V(sol_holder["s"])
+    dxv = V(dx)
+    k = u.int("k")
+    u.path.index_term(k, n)
+    u.assume(z3.And(k >= 0, k < n))
+    u.ensure(QAll(m, lambda q: V(dy).f(q) == s.f(q + ni)), "dy==s[|I|:]")
+    ai = actidx.vec()
+    u.ensure(QAll(ni, lambda t: dxv.f(inact.f(t)) == s.f(t)), "dx[inactive]==s[:|I|]")
+    u.ensure(QAll(na, lambda t: dxv.f(ai.f(t)) == V(b0).f(t)), "dx[active]==b0")
+    # right-hand side: (b1 - (H0+lamb I)[I,A] b0, b2t - J[:,A] b0) with the products taken with the gathered blocks
+    rhs = sol_holder["rhs"]
+    u.ensure((rhs.n == ni + m) if not isinstance(rhs.n, int) else True, "rhs_has_length|I|+m")
+    u.cover("end")
